@@ -240,7 +240,7 @@ void h_sky_factorize(void)
   CANARY("harness.end");
 }
 ''',
-    entry='h_sky_factorize', mode='unwound', unwind='NMAX+3', model='uf',
+    entry='h_sky_factorize', mode='unwound', unwind='max(NMAX+3, NMAX*(NMAX-1)//2+3)', model='uf',
     variants=[{'NMAX': 3, 'ZMAX': 1}], thorough_variants=[{'NMAX': 4, 'ZMAX': 1}],
     bound_text='all skyline objects with 1 <= n <= 3 (thorough: 4): every permutation, every profile (row/column i holds 0..i cells), values symbolic (UF)',
     assumptions=A_SKY, replay='direct', timeout=1500, witness=['w_n', 'w_perm', 'w_ptr'],
@@ -281,7 +281,7 @@ void h_sky_solve(void)
   CANARY("harness.end");
 }
 ''',
-    entry='h_sky_solve', mode='unwound', unwind='NMAX+3', model='uf',
+    entry='h_sky_solve', mode='unwound', unwind='max(NMAX+3, NMAX*(NMAX-1)//2+3)', model='uf',
     variants=[{'NMAX': 3, 'ZMAX': 1}], thorough_variants=[{'NMAX': 4, 'ZMAX': 1}],
     bound_text='all skyline objects with 1 <= n <= 3 (thorough: 4): every permutation, every profile, values symbolic (UF)',
     assumptions=A_SKY, replay='direct', timeout=1500, witness=['w_n', 'w_perm', 'w_ptr'],
